@@ -2,7 +2,7 @@
 From Coq Require Import ZArith List.
 From V Require Import Valid.Hier Valid.FlatRegion Valid.Wf Valid.Run.
 From Coq Require Import Lia.
-From V Require Import Model.Pipe Model.PipeBounded Model.PipeBounded4.
+From V Require Import Model.Pipe Model.PipeBounded Model.PipeBounded4 Model.Graph Model.Edits Model.JoinPath.
 
 Theorem C04_checker_sound : forall h, wf_check h = true -> WfHier h.
 Proof. exact wf_check_sound. Qed.
@@ -29,3 +29,10 @@ Proof.
   split; [apply B0|]. split; [apply B1|apply B2].
 Qed.
 Print Assumptions C04_pipeline_model_le4.
+
+(* the first stage, for ALL graphs (no bound): closing the graph yields a well-formed (flat) hierarchy *)
+Theorem C04_closing_wellformed :
+  forall g top fresh en g',
+    Input g top fresh -> oentry (og g) = Some en -> join_returns g fresh 3 = Ok g' -> WfHier (ehier top g').
+Proof. exact join_returns_wf. Qed.
+Print Assumptions C04_closing_wellformed.
